@@ -1,6 +1,6 @@
 """Generate Gen/CachePy.lean: `DatastoreCacheManager._expire_cache` (`datastore/cache_manager.py`) translated from the
-working tree, one definition per expiration mode (`files`, `size`, `age`; the `datasets` mode builds a dict of lists and
-stays a hand model tied by correspondence).
+working tree, one definition per expiration mode (`files`, `datasets`, `size`, `age`; the dict of lists that the `datasets` mode builds
+is `Py.Groups`, an association list in insertion order).
 
 State: the files on disk and the client's `CacheRegistry` (`Cache.Reg` of Model/Cache.lean).  `self.scan_cache()` and
 `self._remove_from_cache(keys)` are the hand-modelled effects `Cache.scan` / `Cache.removeKeys`; `_sort_cache()` is
@@ -40,15 +40,22 @@ def spec_for(mode: str) -> Spec:
             "delta.total_seconds()": "delta",
             # files mode: the keys to remove are the keys of the first n_over entries
             "sorted_keys[:n_over]": "(((sorted_keys).take (Int.toNat n_over)).map (·.key))",
+            # datasets mode: `datasets` is a dict ref -> list of keys, in insertion order (Py.Groups)
+            "defaultdict(list)": "([] : Py.Groups)",
+            "self._cache_entries[key]": "key",
+            "len(datasets)": "(datasets.length : Int)",
+            "list(datasets.keys())[:n_over]": "((Py.groupKeys datasets).take (Int.toNat n_over))",
+            "list(itertools.chain.from_iterable((datasets[ref_id] for ref_id in ref_ids)))": "(ref_ids.flatMap (fun ref_id => Py.groupGet datasets ref_id))",
         },
+        stmt_rewrites={"datasets[entry.ref].append(key)": ("datasets", "(Py.groupAppend datasets entry.ref key.key)")},
     )
 
 
 def generate(outdir: str) -> dict:
-    specs = [spec_for(m) for m in ("files", "size", "age")]
+    specs = [spec_for(m) for m in ("files", "datasets", "size", "age")]
     txt = translate_file(
         os.path.join(PKG, "datastore/cache_manager.py"), specs, "Gen.CachePy",
-        header="import ButlerModel.Model.Cache",
+        header="import ButlerModel.Model.Cache\nimport ButlerModel.Model.Py",
         tr_cls=lambda sp: StateTr(sp, state=("disk", "r"), state_types=("List Cache.Entry", "Cache.Reg"), effects={
             "self.scan_cache": "(fun disk r => (disk, Cache.scan disk r))",
             "self._remove_from_cache": "Cache.removeKeys",
